@@ -20,7 +20,8 @@ SPEC = {
                      "Intel-HEX/zip decoding of the module test samples in checks/C12.py"],
 }
 
-RULE = ("every repeated and map field (scalars, strings, structures, nested, empty / absent / 1 / many items) is iterated with every quantifier (any, all, none, 2, 50%; for x in array, "
+RULE = ("the rules of a case import the module 1, 2 or 3 times (several namespaces, several sources of a namespace, twice in one source) and Rules::imports() must list it once; "
+        "every repeated and map field (scalars, strings, structures, nested, empty / absent / 1 / many items) is iterated with every quantifier (any, all, none, 2, 50%; for x in array, "
         "for k,v in map), plain and under `not`, `defined`, `or false`, `and true`, with a budget of its own; block scanners (fresh, converted, converted after a scan) must agree that "
         "every collection is empty; every synthetic job is a SEQUENCE of three scans on one scanner: a message supplied through set_module_output, then no message (the module's own output must show), "
         "then a different message through set_module_output_raw (and the reverse order of entry points); every built-in sample additionally runs supplied / computed / supplied-raw; "
